@@ -9,7 +9,7 @@ from .. import common
 from ..common import bits_equal, dec, enc, fd_directional, find_boxes, sig_key
 
 LEVEL = "exploration"
-RULE = "Random smooth maps R^in -> R^out (in/out ranks 0-3 incl. 0-d and size-1 dims, 2-4 positional arguments plus keyword arguments) with the differentiated argument selected by int (incl. negative positions, on variadic functions too) / tuple / list / name (also on functools.partial objects, functions with defaults, bound / class / static methods, callable objects and functools.wraps-decorated wrappers; one-argument functions selected through a one-element tuple / list), positional-only / keyword-only neighbours of the named parameter; hessian also of the array-valued map; one evaluation of the user function per operator call (consumable extra arguments); primal values of operators taken w.r.t. an ignored argument stay differentiable by an enclosing operator. Reference Jacobian from the Richardson FD oracle on the same map evaluated with raw NumPy, reference Hessian from the FD oracle applied to autograd's (C01-judged) gradient plus a symmetric check. Checked operators: jacobian, grad, elementwise_grad, hessian, hessian_tensor_product, tensor_jacobian_product, make_hvp, make_ggnvp, make_jvp_reversemode, deriv, make_jvp, make_vjp, value_and_grad, grad_and_aux, grad_named, holomorphic_grad. Non-trivial iff the FD reference is self-consistent; distinct = distinct (in shape class, out shape class, argnum form, #extra args) signatures."
+RULE = "One object passed at several positions must give bitwise the results of distinct copies for every argnum form (grad, value_and_grad, jacobian, elementwise_grad, make_vjp, make_jvp). Random smooth maps R^in -> R^out (in/out ranks 0-3 incl. 0-d and size-1 dims, 2-4 positional arguments plus keyword arguments) with the differentiated argument selected by int (incl. negative positions, on variadic functions too) / tuple / list / name (also on functools.partial objects, functions with defaults, bound / class / static methods, callable objects and functools.wraps-decorated wrappers; one-argument functions selected through a one-element tuple / list), positional-only / keyword-only neighbours of the named parameter; hessian also of the array-valued map; one evaluation of the user function per operator call (consumable extra arguments); primal values of operators taken w.r.t. an ignored argument stay differentiable by an enclosing operator. Reference Jacobian from the Richardson FD oracle on the same map evaluated with raw NumPy, reference Hessian from the FD oracle applied to autograd's (C01-judged) gradient plus a symmetric check. Checked operators: jacobian, grad, elementwise_grad, hessian, hessian_tensor_product, tensor_jacobian_product, make_hvp, make_ggnvp, make_jvp_reversemode, deriv, make_jvp, make_vjp, value_and_grad, grad_and_aux, grad_named, holomorphic_grad. Non-trivial iff the FD reference is self-consistent; distinct = distinct (in shape class, out shape class, argnum form, #extra args) signatures."
 ASSUMPTIONS = ["reference J: 6th-order Richardson FD, error <= 1e-8; tolerance 1e-6 relative", "ranks <= 3, sizes <= 24 per side"]
 
 
